@@ -1,7 +1,8 @@
 /-
   C11 — backend pool: only live backends are used, failures fail over, load is accounted.
 
-  Property theorems only (helper lemmas: LtVerif/Proofs/Gw.lean, Proofs/GwReach.lean).
+  Property theorems only (helper lemmas: LtVerif/Proofs/Gw.lean, GwReach.lean, GwRetry.lean,
+  GwBound.lean).
   The model (LtVerif/Model/Gw.lean) runs the gw_backend.c bookkeeping on a world of
   hosts × procs × request slots; `run w ops` folds `step` over an arbitrary list of
   operations (request arrives, socket event, spurious wake-up, client abort, clock
@@ -9,8 +10,19 @@
   answers.  Quantifying over `ops` therefore quantifies over every interleaving of
   arrivals, completions and aborts with every backend behaviour (refuse,
   accept-then-close, hang, reset, come back), for every pool shape and balance mode.
+
+  Kinds of statement below, so that none is read for more than it says:
+  * ∀-history  — about `run (initWorld …) ops` for every configuration and every `ops`
+                 (c11_load_exact, _load_nonneg_zero_idle, _stats_exact_partial, _no_ctx_leak,
+                 _active_exact, _dispatch_history, _disable_window_reachable, _retry_bounded);
+  * ∀-continuation — about `run w ops` from any world meeting a stated invariant
+                 (c11_disable_window, _failover_elsewhere, _static);
+  * per call   — what one C function does on an arbitrary world (c11_only_available,
+                 _dispatch_running, _lc_min, _rr_fair, _hash_max, _connect_failure_disables,
+                 _reenable_after, _trigger_settles, _retry_budget, _giveup_5xx,
+                 _timeout_releases).  These are specifications of a decision, not of a history.
 -/
-import LtVerif.Proofs.GwRetry
+import LtVerif.Proofs.GwBound
 namespace LtVerif.C11
 open LtVerif LtVerif.Gw
 
@@ -21,56 +33,94 @@ open LtVerif LtVerif.Gw
 theorem c11_load_exact_step (w : World) (op : Op) (h : Acct none w) : Acct none (step w op) :=
   acct_step op h
 
-/-- **c11_load_exact**: after every history, from every configuration, the per-host
-    load, the per-proc load and the global "gw.active-requests" figure — both the
-    struct fields the balancer reads and the statistics values mod_status prints —
-    equal the number of request contexts holding that host / that proc / any proc. -/
+/-- **c11_load_exact**: after every history, from every configuration, host->load, proc->load
+    (the struct fields the balancer reads) and the global "gw.active-requests" figure equal
+    the number of request contexts holding that host / that proc / any proc.  (The figures
+    mod_status prints per host and per proc are a different matter: c11_stats_exact_partial.) -/
 theorem c11_load_exact (balance : Nat) (wkr : Bool) (nslots : Nat) (specs : List HostSpec) (ops : List Op) :
     let w := run (initWorld balance wkr nslots specs) ops
-    (∀ h, (w.host h).load = hostCnt w h ∧ (w.host h).statLoad = hostCnt w h) ∧
-    (∀ h p, (w.proc h p).load = procCnt w h p ∧ (w.proc h p).statLoad = procCnt w h p) ∧
+    (∀ h, (w.host h).load = hostCnt w h) ∧
+    (∀ h p, (w.proc h p).load = procCnt w h p) ∧
     w.globalActive = anyProcCnt w := by
   intro w
   have hA : Acct none w := acct_run ops (acct_init balance wkr nslots specs)
-  exact ⟨fun h => ⟨hA.hostLoad h, by rw [hA.hostStat, hA.hostLoad]⟩,
-         fun h p => ⟨hA.procLoad h p, by rw [hA.procStat, hA.procLoad]⟩, hA.global⟩
+  exact ⟨hA.hostLoad, hA.procLoad, hA.global⟩
+
+/-- **c11_stats_exact_partial**: the reported figures.  lighttpd keeps them in a table keyed by
+    text, "gw.backend.<host label>.load" and "gw.backend.<host label>.<proc index>.load", and
+    stores the struct field into the entry whenever the field changes (`World.hstat`,
+    `World.pstat`, written by `setHostLoad` / `setProcLoad`).  PARTIAL: if no two hosts carry
+    the same label (`LabelInj`; `initWorld` labels host i with i+1, as the `"h<i>" => (…)`
+    configurations of the harness do), then after every history the entry of every host and
+    proc equals the number of requests in flight on it.  Without that hypothesis the claim is
+    false of model and code alike: c11_stats_alias_witness. -/
+theorem c11_stats_exact_partial (w0 : World) (hi : LabelInj w0) (hS : StatExact w0) (hA0 : Acct none w0)
+    (ops : List Op) :
+    let w := run w0 ops
+    (∀ h, w.hstat (w.host h).label = hostCnt w h) ∧
+    (∀ h p, w.pstat (w.host h).label p = procCnt w h p) := by
+  intro w
+  have hA : Acct none w := acct_run ops hA0
+  have hS' : StatExact w := stat_reach (reach_run w0 ops) hi hS
+  exact ⟨fun h => (hS'.1 h).trans (hA.hostLoad h), fun h p => (hS'.2 h p).trans (hA.procLoad h p)⟩
+
+/-- … in particular from every configuration with labelled hosts -/
+theorem c11_stats_exact_labelled (balance : Nat) (wkr : Bool) (nslots : Nat) (specs : List HostSpec)
+    (ops : List Op) :
+    let w := run (initWorld balance wkr nslots specs) ops
+    (∀ h, w.hstat (w.host h).label = hostCnt w h) ∧
+    (∀ h p, w.pstat (w.host h).label p = procCnt w h p) :=
+  c11_stats_exact_partial _ (labelInj_init balance wkr nslots specs) (stat_init balance wkr nslots specs)
+    (acct_init balance wkr nslots specs) ops
+
+/-- **c11_stats_alias_witness**: the negation of c11_stats_exact_partial without its hypothesis.
+    Two hosts written as an anonymous list `(( … ), ( … ))` have no label, so both use the
+    entry "gw.backend..load".  One request arrives and is connected to host 0: the entry that
+    is also host 1's now reads 1 while no request is on host 1 — "the per-host load figure
+    lighttpd reports" is not the number of requests in flight there. -/
+theorem c11_stats_alias_witness :
+    let w0 := anonymize (initWorld 0 false 2 [⟨1, 1, 0, 0, 0, 'r'⟩, ⟨1, 1, 0, 0, 0, 'r'⟩])
+    let w := run w0 [.arrive 0 1 { conn := ['k'] }]
+    (w0.host 0).label = (w0.host 1).label ∧ Acct none w ∧
+    w.hstat (w.host 1).label = 1 ∧ hostCnt w 1 = 0 ∧
+    w.pstat (w.host 1).label 0 = 1 ∧ procCnt w 1 0 = 0 := by
+  intro w0 w
+  refine ⟨rfl, ?_, by decide, by decide, by decide, by decide⟩
+  have h0 : Acct none (initWorld 0 false 2 [⟨1, 1, 0, 0, 0, 'r'⟩, ⟨1, 1, 0, 0, 0, 'r'⟩]) := acct_init _ _ _ _
+  exact acct_run _ ⟨h0.hostLoad, h0.hostStat, h0.procLoad, h0.procStat, h0.global, h0.fds, h0.ghost, h0.slots, h0.range⟩
 
 /-- never negative; zero when idle (no request context left) -/
 theorem c11_load_nonneg_zero_idle (balance : Nat) (wkr : Bool) (nslots : Nat) (specs : List HostSpec)
     (ops : List Op) :
     let w := run (initWorld balance wkr nslots specs) ops
-    (∀ h, 0 ≤ (w.host h).load ∧ 0 ≤ (w.host h).statLoad) ∧
-    (∀ h p, 0 ≤ (w.proc h p).load ∧ 0 ≤ (w.proc h p).statLoad) ∧ 0 ≤ w.globalActive ∧
+    (∀ h, 0 ≤ (w.host h).load) ∧
+    (∀ h p, 0 ≤ (w.proc h p).load) ∧ 0 ≤ w.globalActive ∧
     ((∀ s, w.slot s = none) →
-      (∀ h, (w.host h).load = 0 ∧ (w.host h).statLoad = 0) ∧
-      (∀ h p, (w.proc h p).load = 0 ∧ (w.proc h p).statLoad = 0) ∧ w.globalActive = 0 ∧ w.curFds = 0) := by
+      (∀ h, (w.host h).load = 0) ∧
+      (∀ h p, (w.proc h p).load = 0) ∧ w.globalActive = 0 ∧ w.curFds = 0) := by
   intro w
   have hA : Acct none w := acct_run ops (acct_init balance wkr nslots specs)
   have hpc : w.pendClose = 0 := run_pendClose _ ops rfl
   clear_value w
-  have hh : ∀ h, (w.host h).load = hostCnt w h ∧ (w.host h).statLoad = hostCnt w h :=
-    fun h => ⟨hA.hostLoad h, by rw [hA.hostStat, hA.hostLoad]⟩
-  have hp : ∀ h p, (w.proc h p).load = procCnt w h p ∧ (w.proc h p).statLoad = procCnt w h p :=
-    fun h p => ⟨hA.procLoad h p, by rw [hA.procStat, hA.procLoad]⟩
+  have hh : ∀ h, (w.host h).load = hostCnt w h := hA.hostLoad
+  have hp : ∀ h p, (w.proc h p).load = procCnt w h p := hA.procLoad
   have hg := hA.global
   refine ⟨?_, ?_, ?_, ?_⟩
   · intro h
-    rw [(hh h).1, (hh h).2]
-    exact ⟨sumTo_nonneg _ _ (fun _ _ => hostC_nonneg _ _), sumTo_nonneg _ _ (fun _ _ => hostC_nonneg _ _)⟩
+    rw [hh h]
+    exact sumTo_nonneg _ _ (fun _ _ => hostC_nonneg _ _)
   · intro h p
-    rw [(hp h p).1, (hp h p).2]
-    exact ⟨sumTo_nonneg _ _ (fun _ _ => procC_nonneg _ _ _), sumTo_nonneg _ _ (fun _ _ => procC_nonneg _ _ _)⟩
+    rw [hp h p]
+    exact sumTo_nonneg _ _ (fun _ _ => procC_nonneg _ _ _)
   · rw [hg]; exact sumTo_nonneg _ _ (fun _ _ => anyProcC_nonneg _)
   · intro hidle
     refine ⟨?_, ?_, ?_, ?_⟩
     · intro h
-      rw [(hh h).1, (hh h).2]
-      have : hostCnt w h = 0 := sumTo_eq_zero _ _ (fun i _ => by simp [hidle i, hostC])
-      exact ⟨this, this⟩
+      rw [hh h]
+      exact sumTo_eq_zero _ _ (fun i _ => by simp [hidle i, hostC])
     · intro h p
-      rw [(hp h p).1, (hp h p).2]
-      have : procCnt w h p = 0 := sumTo_eq_zero _ _ (fun i _ => by simp [hidle i, procC])
-      exact ⟨this, this⟩
+      rw [hp h p]
+      exact sumTo_eq_zero _ _ (fun i _ => by simp [hidle i, procC])
     · rw [hg]; exact sumTo_eq_zero _ _ (fun i _ => by simp [hidle i, anyProcC])
     · have hf := hA.fds
       have : fdCnt w = 0 := sumTo_eq_zero _ _ (fun i _ => by simp [hidle i, fdC])
@@ -118,6 +168,26 @@ theorem c11_dispatch_running (w : World) (h : Nat) :
     (∀ p, pickProc w h = some p → p < (w.host h).nprocs ∧ (w.proc h p).state = .running) ∧
     (Avail w → (w.host h).active ≠ 0 → ∃ p, pickProc w h = some p) :=
   ⟨fun _ hp => pickProc_running hp, fun hA hact => pickProc_complete hA h hact⟩
+
+/-- **c11_dispatch_history**: history level.  Every connect() a history ever issues —
+    `Ev.dispatch s h p` in the log of `run (initWorld …) ops`, arrival, retry or timeout
+    restart alike — was issued from a world `w'` lying on the way (its log is exactly what
+    precedes the entry) in which proc p of host h existed and was RUNNING, hence in which
+    host h had active_procs ≠ 0.  An OVERLOADED proc whose disable time has lapsed but which
+    no trigger has re-enabled yet is therefore not dialled either. -/
+theorem c11_dispatch_history (balance : Nat) (wkr : Bool) (nslots : Nat) (specs : List HostSpec)
+    (ops : List Op) (post pre : List Ev) (s h p : Nat)
+    (hlog : (run (initWorld balance wkr nslots specs) ops).log = post ++ Ev.dispatch s h p :: pre) :
+    ∃ w', Reach (initWorld balance wkr nslots specs) w' ∧
+      Reach w' (run (initWorld balance wkr nslots specs) ops) ∧ w'.log = pre ∧
+      p < (w'.host h).nprocs ∧ (w'.proc h p).state = .running ∧ (w'.host h).active ≠ 0 := by
+  obtain ⟨new, e, H⟩ := reach_dispatch_running (reach_run (initWorld balance wkr nslots specs) ops)
+  have e0 : (initWorld balance wkr nslots specs).log = [] := rfl
+  rw [e0, List.append_nil] at e
+  obtain ⟨w', r1, r2, c0, c1, c2⟩ := H post pre s h p (e.symm.trans hlog)
+  rw [e0, List.append_nil] at c0
+  have hAv : Avail w' := avail_reach r1 (avail_init balance wkr nslots specs)
+  exact ⟨w', r1, r2, c0, c1, c2, (avail_pos_iff hAv h).mpr ⟨p, c1, c2⟩⟩
 
 /-- **c11_lc_min**: least-connection returns the first available host of minimal load. -/
 theorem c11_lc_min (w : World) (key h : Nat) (hn : 1 < w.nhosts) (hb : w.balance = 0)
@@ -196,13 +266,38 @@ theorem c11_disable_window_reachable (balance : Nat) (wkr : Bool) (nslots : Nat)
     ops' h p D hs hD hnow
 
 /-- **c11_disable_reenable** (3): the first trigger after `disabled_until` brings the proc
-    back (for a host with no request waiting on it; a request timing out in the same
-    tick may disable it again, which (2) then covers). -/
+    back — stated here for a host with no request waiting on it; with requests waiting, one
+    of them timing out in the same tick may disable the proc again: c11_trigger_settles is
+    the statement without the side condition. -/
 theorem c11_reenable_after (w : World) (h p : Nat) (he : (w.host h).hctxs = [])
     (hp : p < (w.host h).nprocs) (hs : (w.proc h p).state = .overloaded)
     (ht : (w.proc h p).disabledUntil < w.now) :
     ((triggerHost w h).proc h p).state = .running :=
   triggerHost_enables w h p he hp hs ht
+
+/-- **c11_trigger_settles**: without any side condition — after gw_handle_trigger_host() has
+    visited a host, every proc of it that is still OVERLOADED has its disable time ahead
+    (`now ≤ disabled_until`: its time is not up, or it failed again in this very tick); a
+    proc whose time was up has been brought back. -/
+theorem c11_trigger_settles (w : World) (h p : Nat) (hp : p < (w.host h).nprocs)
+    (hs : ((triggerHost w h).proc h p).state = .overloaded) :
+    (triggerHost w h).now ≤ ((triggerHost w h).proc h p).disabledUntil :=
+  triggerHost_settles w h p hp hs
+
+/-- **c11_failover_elsewhere**: "retried on ANOTHER backend", for connect failures.  Once
+    connect() to a remote proc has failed (gw_proc_connect_error), no continuation of the
+    history — in particular not the retry of the same request in the same event — dials
+    that proc again until the clock has passed now + disable-time.  (For a retry after the
+    backend accepted and then reset the connection nothing is disabled, and the same proc
+    may be chosen again: that is lighttpd's behaviour and not claimed otherwise.) -/
+theorem c11_failover_elsewhere (w : World) (hW : WInv w) (h p pid : Nat) (hp : p < (w.host h).nprocs)
+    (hr : (w.proc h p).isLocal = false) (ops : List Op)
+    (hnow : (run (connectError w h p pid) ops).now ≤ w.now + (w.host h).disableTime) :
+    ∃ new, (run (connectError w h p pid) ops).log = new ++ (connectError w h p pid).log ∧
+      ∀ e, e ∈ new → ∀ s, e ≠ Ev.dispatch s h p := by
+  have hd := connectError_disables w h p pid (Or.inl hr)
+  have hW1 : WInv (connectError w h p pid) := winv_reach (reach_connectError w h p pid hp) hW
+  exact (window_reach (reach_run _ ops) hW1 ⟨hd.1, by rw [hd.2]; exact Int.le_refl _⟩ hnow).2
 
 /-- time never runs backwards and the configuration is never changed by a history
     (what the window theorem silently relies on) -/
@@ -215,7 +310,7 @@ theorem c11_static (w : World) (ops : List Op) :
 
 /-! ## retries are bounded and end in an error status -/
 
-/-- **c11_retry_budget**: the retry decision of every failure path.
+/-- **c11_retry_budget** (per call): the retry decision of every failure path.
     (1) gw_write_error() before the request was sent (GW_STATE_INIT / CONNECT_DELAYED):
         with 5 reconnects used up it gives up (HANDLER_FINISHED via gw_backend_error, i.e. 5xx),
         otherwise it is exactly one gw_reconnect() with the counter incremented;
@@ -244,22 +339,38 @@ theorem c11_retry_budget (w : World) (s : Nat) :
   obtain ⟨h, _, a, b, c⟩ := reconnect_comeback w s hc
   exact ⟨h, a, b, c⟩
 
-/-- **c11_retry_bounded**: never an unbounded wait inside one event.  `mu s w` = 6 × (scripted
-    kernel/backend answers not yet consumed) + (retry budget of slot s left).  Whatever
-    the kernel and the backends answer, every HANDLER_COMEBACK that gw_handle_subrequest()
-    returns strictly decreases `mu` (a retry either uses up budget, or follows an immediately
-    successful connect() — the only thing that resets the counter — which consumed an
-    answer), so the COMEBACK loop of http_response_handler() ends after at most `mu + 1`
-    rounds: running it with any larger fuel, in particular the model's `conFuel`, gives
-    the same result, i.e. the fuel is never what ends the loop. -/
-theorem c11_retry_bounded (w : World) (s : Nat) :
+/-- **c11_retry_bounded**: "a bounded number of times", for every history and every
+    environment script, of whatever length.  `dispatched` counts the connect() calls made for
+    the request occupying a slot (it starts at 0 with the request and is incremented by
+    `wrConnect`, the one place that logs `Ev.dispatch`; the harness compares it after every
+    event with its own count of real connect() calls, and the oracle recounts the calls from
+    the output).  After every history, for every request in flight:
+      connect() calls ≤ 1 + retries taken   and   connect() calls ≤ 6,
+    i.e. one attempt and at most five re-dispatches, however the backends behave and however
+    long they go on misbehaving.
+    This is a theorem about lighttpd WITH the repair prepared for it (gw_write_request() no
+    longer zeroes hctx->reconnects when connect() succeeds at once); in the unrepaired code a
+    backend that accepts and resets restarts the budget each time and the number of
+    connect() calls for one request is unbounded. -/
+theorem c11_retry_bounded (balance : Nat) (wkr : Bool) (nslots : Nat) (specs : List HostSpec) (ops : List Op)
+    (s : Nat) (c : Ctx) (hc : (run (initWorld balance wkr nslots specs) ops).slot s = some c) :
+    c.aux.dispatched ≤ c.aux.reconnects + 1 ∧ c.aux.dispatched ≤ 6 := by
+  have hJ := j_run _ ops (acct_init balance wkr nslots specs) (j_init balance wkr nslots specs) s c hc
+  exact ⟨by have := hJ.1; omega, by have := hJ.2; omega⟩
+
+/-- **c11_comeback_terminates**: no spinning inside one event either.  Every HANDLER_COMEBACK
+    that gw_handle_subrequest() returns has used up one unit of the request's retry budget
+    (`mu s w = 5 − reconnects`), so the COMEBACK loop of http_response_handler() ends by
+    itself: running it with any fuel ≥ 7 gives the same result as with the model's 7, i.e.
+    the fuel is never what ends the loop. -/
+theorem c11_comeback_terminates (w : World) (s : Nat) :
     ((w.slot s).isSome → (subrequest w s).1 = .comeback → mu s (subrequest w s).2 < mu s w) ∧
     (∀ n, conFuel w ≤ n → runCon n w s = runCon (conFuel w) w s) := by
   refine ⟨fun hs hc => subrequest_strict w s hs hc, fun n hn => ?_⟩
   have := conFuel_gt_mu w s
   exact runCon_fuel n (conFuel w) w s (by omega) this
 
-/-- **c11_giveup_5xx**: "otherwise the client receives a 5xx".  Where the code gives up on a
+/-- **c11_giveup_5xx** (per call): "otherwise the client receives a 5xx".  Where the code gives up on a
     request whose response has not begun — (1) the tail of gw_write_error(), (2)
     gw_backend_error() from any other path, (3) gw_host_get() finding no available host —
     the request handler is dropped and the status is an error: ≥ 500, or the 400 a failed
@@ -278,22 +389,32 @@ theorem c11_giveup_5xx (w : World) (s : Nat) (hs : (w.slot s).isSome) (hns : (w.
   have E := backendError_seen w s hs hns
   exact ⟨E.1, E.2.2.1 hh⟩
 
-/-- **c11_timeout_releases**: "… instead of hanging".  gw_handle_trigger_host_timeouts() fires
-    the timeout handler as soon as a configured deadline has passed (connect: CONNECT_DELAYED
-    longer than connect-timeout; read: polling for input longer than read-timeout), and
-    after the handler — for every kind and whatever the backends answer meanwhile — the
-    request no longer waits on that backend: it holds no socket and no proc, and either
-    restarts in GW_STATE_INIT on a host gw_host_get() chose or holds no host at all
-    (finished with 503/504, see c11_giveup_5xx). -/
+/-- **c11_timeout_releases**: "… instead of hanging", per visit.  When
+    gw_handle_trigger_host_timeouts() visits a request whose configured deadline has passed
+    (connect: CONNECT_DELAYED longer than connect-timeout; read: polling for input longer than
+    read-timeout; write: polling for output longer than write-timeout) it calls the timeout
+    handler, and after the handler — for every kind and whatever the backends answer
+    meanwhile — the request no longer waits on that backend: it holds no socket and no proc,
+    and either restarts in GW_STATE_INIT on a host gw_host_get() chose or holds no host at
+    all (finished with 503/504, see c11_giveup_5xx).  A timeout configured as 0 is off (read-
+    and write-timeout are off by default), so a backend that hangs after accepting is then
+    waited for indefinitely: that is lighttpd's documented behaviour.  NOT proved: that the
+    trigger visits every waiting request (host->hctxs holding exactly the requests with a
+    socket), hence no theorem "every request ends under ticks"; on the real code the oracle
+    checks after every tick that no request is past a configured deadline. -/
 theorem c11_timeout_releases (w : World) (h s kind : Nat) (hA : Acct none w) :
     ((w.linkOf s).state = .connectDelayed → w.now - (w.auxOf s).writeTs > (w.host h).ctimeout →
       (w.host h).ctimeout ≠ 0 → timeoutStep h w s = hctxTimeout w s 0) ∧
     ((w.linkOf s).state ≠ .connectDelayed → (w.auxOf s).evIn = true →
       w.now - (w.auxOf s).readTs > (w.host h).rtimeout → (w.host h).rtimeout ≠ 0 →
       timeoutStep h w s = hctxTimeout w s 1) ∧
+    ((w.linkOf s).state ≠ .connectDelayed →
+      ¬((w.auxOf s).evIn = true ∧ w.now - (w.auxOf s).readTs > (w.host h).rtimeout ∧ (w.host h).rtimeout ≠ 0) →
+      (w.auxOf s).evOut = true → w.now - (w.auxOf s).writeTs > (w.host h).wtimeout →
+      (w.host h).wtimeout ≠ 0 → timeoutStep h w s = hctxTimeout w s 2) ∧
     (∀ l, lk (hctxTimeout w s kind) s = some l →
       l.fd = false ∧ l.proc = none ∧ (l.state = .init ∨ l.host = none)) := by
-  refine ⟨(timeoutStep_fires h w s).1, (timeoutStep_fires h w s).2, ?_⟩
+  refine ⟨(timeoutStep_fires h w s).1, (timeoutStep_fires h w s).2, timeoutStep_write_fires h w s, ?_⟩
   intro l hl
   have R := hctxTimeout_released w s kind hA
   have N := released_holds_nothing (acct_hctxTimeout s kind hA) R l hl
@@ -348,11 +469,46 @@ example : ((triggerHost w2 0).proc 0 0).state = .running :=
 -- c11_retry_budget / c11_retry_bounded / c11_giveup_5xx: a context in GW_STATE_INIT with budget left
 example : (w3.linkOf 0).state = .init ∧ (w3.auxOf 0).reconnects < 5 ∧ (w3.auxOf 0).started = false ∧
     (w3.slot 0).isSome = true ∧ (w3.auxOf 0).handler = true ∧
-    mu 0 { w3 with script := { conn := ['r', 'r'] } } = 16 := by
+    mu 0 w3 = 4 := by
   decide
--- c11_timeout_releases: a world satisfying the accounting invariant with a request waiting
--- for a delayed connect() on host 0 since t = 1000, the clock past connect-timeout 3
-example : Acct none (run w0 [.arrive 0 1 { conn := ['p'] }, .tick 2 {}]) :=
-  acct_run _ (acct_init 0 false 3 spec2)
+-- c11_timeout_releases: a request waiting for a delayed connect() on host 0 since t = 1000,
+-- visited at t = 1004 (connect-timeout 3): the firing clause applies, and the world the
+-- request is in satisfies the accounting invariant the release clause asks for
+private def hDelayed : List Op := [.arrive 0 1 { conn := ['p'] }]
+private def wT : World := { run w0 hDelayed with now := 1004 }
+example : (wT.linkOf 0).state = .connectDelayed ∧ wT.now - (wT.auxOf 0).writeTs > (wT.host 0).ctimeout ∧
+    (wT.host 0).ctimeout ≠ 0 ∧ (wT.host 0).hctxs = [0] := by decide
+example : timeoutStep 0 wT 0 = hctxTimeout wT 0 0 :=
+  (c11_timeout_releases wT 0 0 0 (acct_now 1004 (acct_run _ (acct_init 0 false 3 spec2)))).1
+    (by decide) (by decide) (by decide)
+
+-- histories: host 0 refuses the first request, which fails over to host 1
+private def hRefused : List Op := [.arrive 0 1 { conn := ['r', 'k'] }]
+-- c11_disable_window_reachable / c11_failover_elsewhere: the premises are met after `hRefused`
+example : ((run w0 hRefused).proc 0 0).state = .overloaded ∧ ((run w0 hRefused).proc 0 0).disabledUntil = 1002 ∧
+    (run (run w0 hRefused) [.tick 2 {}]).now ≤ 1002 := by decide
+example : WInv w0 ∧ 0 < (w0.host 0).nprocs ∧ (w0.proc 0 0).isLocal = false :=
+  ⟨winv_init 0 false 3 spec2, by decide, by decide⟩
+-- c11_no_ctx_leak: two sockets were opened, one closed, one is held
+example : (run w0 hRefused).opened = 2 ∧ (run w0 hRefused).closed = 1 ∧ fdCnt (run w0 hRefused) = 1 := by decide
+-- c11_dispatch_history: that log holds two connect() entries, one of them to host 1
+example : ((run w0 hRefused).log.filter isDispatch).length = 2 ∧
+    (run w0 hRefused).log.any (fun e => match e with | Ev.dispatch 0 1 0 => true | _ => false) = true := by decide
+-- c11_retry_bounded: the request of `hRefused` is in flight with 2 connects, 1 retry …
+example : ∃ c, (run w0 hRefused).slot 0 = some c ∧ c.aux.dispatched = 2 ∧ c.aux.reconnects = 1 :=
+  ⟨_, rfl, by decide, by decide⟩
+-- … and the bound is met: a backend that accepts and resets eight times is dialled six times
+example : ((run (initWorld 0 false 1 [⟨6, 0, 0, 0, 0, 'r'⟩])
+      [.arrive 0 1 { conn := ['k', 'k', 'k', 'k', 'k', 'k', 'k', 'k'], wr := ['e', 'e', 'e', 'e', 'e', 'e', 'e', 'e'],
+                     rd := ['x', 'x', 'x', 'x', 'x', 'x', 'x', 'x'] }]).log.filter isDispatch).length = 6 := by
+  decide
+-- c11_trigger_settles: host 0 proc 0 was disabled at 1000 until 1002; a trigger at 1000 leaves it out
+example : ((triggerHost w1 0).proc 0 0).state = .overloaded := by decide
+-- c11_rr_fair / c11_hash_max: the premises hold on the two-host pool
+example : 1 < (initWorld 1 false 3 spec2).nhosts ∧ (initWorld 1 false 3 spec2).balance = 1 ∧
+    (hostPick (initWorld 1 false 3 spec2) 7).1 = some 0 := by decide
+example : (initWorld 2 false 3 spec2).balance = 2 ∧ (hostPick (initWorld 2 false 3 spec2) 7).1 = some 1 := by decide
+-- c11_stats_exact_partial: the labelled pools of `initWorld` meet its hypotheses
+example : LabelInj w0 ∧ StatExact w0 := ⟨labelInj_init 0 false 3 spec2, stat_init 0 false 3 spec2⟩
 
 end LtVerif.C11
